@@ -48,7 +48,10 @@ class Ref:
 
 
 def bbox_of(w):
-    bb = w.bounding_box
+    try:
+        bb = w.bounding_box
+    except Exception as e:  # noqa   a corrupted pipeline can make the getter itself fail: that is an observation, not a harness error
+        return f"<bounding_box raised {type(e).__name__}>"
     if bb is None:
         return None
     n = w.forward_transform.n_inputs if len(w.pipeline) > 1 else 1
@@ -244,6 +247,9 @@ def run_sequence(ctx, rng, n, k0, nops):
                 problems.append((f"{kind}: a frame object is not exposed under its name", desc + [cop]))
             elif bbox_of(w) != ref.box:
                 problems.append((f"{kind}: bounding box {bbox_of(w)} != reference {ref.box}", desc + [cop]))
+        if isinstance(after_obs[1], str) or isinstance(bbox_of(w), str):
+            problems.append((f"{kind}: after the edit ({status or 'accepted'}) the WCS is corrupt: {bbox_of(w)}, frames {w.available_frames}", desc + [cop]))
+            break
         # ---- observation for Coq
         nm_codes = [code[x] for x in w.available_frames]
         attrs = glist([f"({gz(code[x])}, " + (f"Some {gz(100 + code[x])}" if (getattr(w, x, None) is not None and not isinstance(getattr(w, x), str)) else "None") + ")"
